@@ -289,6 +289,8 @@ pub mod checks {
             "e2e_fn" => { let a = atoms(); let fa: Vec<Filter> = a.iter().filter(|f| format!("{:?}", f).contains("Function(")).cloned().collect();
                           let mut v = fa.clone();
                           v.extend(fa.iter().map(|f| Filter::Atom(FilterAtom::Filter { expr: Box::new(f.clone()), not: true }))); v }
+            // C14: one extension-function call per filter (value arguments), plain and negated
+            "e2e_ext" => ext_filters(),
             _ => filters(&mut rng, if tier == "thorough" { 400 } else { 120 }),
         };
         let w = Segment::Selector(Selector::Wildcard);
@@ -303,7 +305,8 @@ pub mod checks {
     }
     pub fn group_e2e(tier: &str, seed: u64, only: Option<(usize, usize)>) -> Report { group_e2e_named("e2e", tier, seed, only) }
     pub fn group_e2e_named(name: &str, tier: &str, seed: u64, only: Option<(usize, usize)>) -> Report {
-        let ds = docs(if tier == "thorough" { 400 } else { 60 }, seed);
+        // (the extension functions are documented for serde_json::Value only: their documents come first and are evaluated on every query)
+        let ds = if name == "e2e_ext" { let mut v = ext_docs(); v.extend(docs(if tier == "thorough" { 100 } else { 20 }, seed)); v } else { docs(if tier == "thorough" { 400 } else { 60 }, seed) };
         let qs = if name == "e2e" { queries(tier, seed) } else { queries_subset(name, tier, seed) };
         // quick: every query on the curated documents and on a rotating sample of the others; thorough: every pair
         let stride = if tier == "thorough" { 1 } else { 7 };
@@ -318,6 +321,7 @@ pub mod checks {
                         if let Some((a, b)) = only { if (qi, di) != (a, b) { continue; } }
                         else if (qi + di) % stride != 0 && di >= always() { continue; }
                         let r1 = e2e_one(q, d, d, &mut rep, "serde_json::Value", (qi, di));
+                        if name == "e2e_ext" { continue; }   // the second implementation has no extension functions (the trait's default returns null)
                         // quick: the second implementation on every pair with a curated document, on every other pair with a random one
                         if tier != "thorough" && only.is_none() && di >= always() && (qi + di) % 2 == 1 { continue; }
                         // C15: the same query over a second Queryable implementation of the same document
@@ -405,6 +409,17 @@ pub mod checks {
                 out.push(JpQuery::new(vec![Segment::Descendant(Box::new(u.clone()))]));
                 out.push(JpQuery::new(vec![Segment::Selector(Selector::Name("a".into())), u.clone()]));
             }
+        } else if name == "text_ext" {
+            // C14 through the parser: every extension-function filter of the AST menu, printed
+            for f in ext_filters() {
+                // (a comparison as function argument - `in(@ == 1, $.list)` - is valid RFC 9535 but the recogniser rejects it: a C06 matter, see
+                //  DESIGN.md 11.8; such arguments stay in the AST-level group e2e_ext)
+                if format!("{:?}", f).contains("[Filter(") { continue; }
+                let sgm = Segment::Selector(Selector::Filter(f));
+                out.push(JpQuery::new(vec![sgm.clone()]));
+                out.push(JpQuery::new(vec![Segment::Selector(Selector::Name("elems".into())), sgm.clone()]));
+                out.push(JpQuery::new(vec![Segment::Selector(Selector::Wildcard), sgm]));
+            }
         } else if name == "text_plain" {
             // names and indexes only ("plain paths"), depth 1..3: the queries for which a document-specific shortcut is conceivable
             let mut segs: Vec<Segment> = ["a", "b", "k", "0", "1", "a/b", "a~b", "~0", "x", "a\\b", "'\\/'"].iter().map(|n| Segment::Selector(Selector::Name(n.to_string()))).collect();
@@ -453,6 +468,7 @@ pub mod checks {
                                  let mut v = vec![json!(["a'b", "a\\'b", "a\nb", "a\\nb", "a/b", "a\\b", "é", "a\"b", "a\tb", "'", "\\", "", "𝄞", "b"]),
                                                   json!([{"a": "a'b"}, {"a": "a\\'b"}, {"a": "a\nb"}, {"a": "a\\b"}, {"a": "é"}, {"a": ""}, {"b": "a'b"}])];
                                  v.extend(docs(if tier == "thorough" { 200 } else { 30 }, seed)); v }
+                             else if name == "text_ext" { let mut v = ext_docs(); v.extend(docs(if tier == "thorough" { 60 } else { 10 }, seed)); v }
                              else { docs(if tier == "thorough" { 200 } else { 30 }, seed) };
         let qs = text_queries(name, tier, seed);
         let stride = if tier == "thorough" || name == "text_arith" { 1 } else { 5 };
@@ -520,6 +536,7 @@ pub mod checks {
                         if !api_ok { rep.fail(&format!("{}.api_agree", name), &feats, w(json!("query / query_only_path / query_with_path disagree with js_path"))); }
                         // C15 at the public API: the same text over a second Queryable implementation of the same document gives
                         // the same paths and equal values, through every trait method
+                        if name == "text_ext" { continue; }   // the second implementation has no extension functions
                         let j = from_value(d);
                         let view_ok = match (catch_unwind(AssertUnwindSafe(|| j.query(&text))), catch_unwind(AssertUnwindSafe(|| j.query_only_path(&text))), catch_unwind(AssertUnwindSafe(|| j.query_with_path(&text))),
                                              catch_unwind(AssertUnwindSafe(|| d.query(&text))), catch_unwind(AssertUnwindSafe(|| d.query_only_path(&text))), catch_unwind(AssertUnwindSafe(|| d.query_with_path(&text)))) {
@@ -1012,6 +1029,64 @@ pub mod checks {
             }
         }
         rep.samples.push(json!({"lhs": [1], "rhs": [1.0], "json_eq": true}));
+        rep
+    }
+    /// C14, the function itself: `<serde_json::Value as Queryable>::extension_custom(name, args)` on every pair (and some singletons and triples)
+    /// of a value menu, owned and borrowed, against the set-membership reading of the property statement; plus the complement laws
+    pub fn group_ext_direct(_tier: &str, _seed: u64, only: Option<(usize, usize)>) -> Report {
+        use std::borrow::Cow;
+        let mut rep = Report::new("ext_direct");
+        let vals: Vec<Value> = vec![json!(null), json!(true), json!(false), json!(1), json!(2), json!(-1), json!(2.5), json!("a"), json!("b"), json!(""), json!([]), json!([1]), json!([2]), json!([1, 2]),
+            json!([2, 1]), json!([1, 1]), json!([1, 2, 3]), json!(["a"]), json!(["a", 1]), json!([[1]]), json!([[1], [2]]), json!([[]]), json!([null]), json!([[1], 1]), json!({"a": 1}), json!([{"a": 1}]),
+            json!([{"a": 1}, 1]), json!({}), json!([{}]), json!([true]), json!([1, "a", null, [1]]), json!([[1, 2]]), json!([[2, 1]]), json!(["1"]), json!("1")];
+        let names = ["in", "nin", "none_of", "any_of", "subset_of", "foo", "IN", "", "in ", "anyOf"];
+        let as_bool = |v: &Value| -> Option<bool> { match v { Value::Bool(b) => Some(*b), _ => None } };
+        let mut idx = 0usize;
+        let mut one = |rep: &mut Report, name: &str, args: Vec<&Value>, owned: bool, qi: usize, di: usize| {
+            rep.evaluations += 1;
+            let cows: Vec<Cow<Value>> = args.iter().map(|v| if owned { Cow::Owned((*v).clone()) } else { Cow::Borrowed(*v) }).collect();
+            let want = ext_sets(name, &args);
+            let w = |got: Value| json!({"function": name, "args": args, "owned": owned, "qi": qi, "di": di, "observed": got, "expected": match want { Some(b) => json!(b), None => json!(null) }});
+            match catch_unwind(AssertUnwindSafe(|| <Value as Queryable>::extension_custom(name, cows))) {
+                Err(_) => rep.fail("extension_custom.no_panic", &[], w(json!("panic"))),
+                Ok(got) => {
+                    if want.is_some() { rep.nontrivial += 1; }
+                    // no result: anything that is not `true` (the test is false); a result: exactly that boolean
+                    let ok = match want { Some(b) => as_bool(&got) == Some(b), None => as_bool(&got) != Some(true) };
+                    if !ok { rep.fail("extension_custom.def", &[], w(got)); }
+                }
+            }
+        };
+        for (ni, name) in names.iter().enumerate() {
+            for (ai, a) in vals.iter().enumerate() {
+                for (bi, b) in vals.iter().enumerate() {
+                    let (qi, di) = (ni, ai * vals.len() + bi);
+                    if let Some(o) = only { if o != (qi, di) { continue; } }
+                    one(&mut rep, name, vec![a, b], (ai + bi) % 2 == 0, qi, di);
+                    idx += 1;
+                }
+                if only.is_none() {
+                    one(&mut rep, name, vec![a], false, ni, 1_000_000 + ai);
+                    one(&mut rep, name, vec![a, &vals[(ai + 11) % vals.len()], &vals[(ai + 3) % vals.len()]], true, ni, 2_000_000 + ai);
+                }
+            }
+            if only.is_none() { one(&mut rep, name, vec![], false, ni, 3_000_000); }
+        }
+        // the laws the property states: nin = not in, none_of = not any_of (whenever both have a result), the empty array is a subset of any array
+        if only.is_none() {
+            let call = |n: &str, a: &Value, b: &Value| as_bool(&<Value as Queryable>::extension_custom(n, vec![Cow::Borrowed(a), Cow::Borrowed(b)]));
+            for a in &vals { for b in &vals {
+                rep.evaluations += 1;
+                let w = |law: &str| json!({"law": law, "args": [a, b]});
+                if b.is_array() && call("nin", a, b) != call("in", a, b).map(|x| !x) { rep.fail("extension_custom.laws", &[], w("nin == !in")); }
+                if a.is_array() && b.is_array() && call("none_of", a, b) != call("any_of", a, b).map(|x| !x) { rep.fail("extension_custom.laws", &[], w("none_of == !any_of")); }
+                if a.as_array().map(|x| x.is_empty()) == Some(true) && b.is_array() && call("subset_of", a, b) != Some(true) { rep.fail("extension_custom.laws", &[], w("[] subset_of anything")); }
+                if !b.is_array() { for n in ["in", "nin", "none_of", "any_of", "subset_of"] { if call(n, a, b) == Some(true) { rep.fail("extension_custom.laws", &[], w("non-array second argument: false")); } } }
+            } }
+        }
+        let _ = idx;
+        rep.samples.push(json!({"function": "subset_of", "args": [[], [1]], "expected": true}));
+        rep.samples.push(json!({"function": "in", "args": [[1], [1, [1]]], "expected": true}));
         rep
     }
     /// extension functions (in, nin, none_of, any_of, subset_of, unknown names) with present, missing and surplus arguments:
